@@ -502,7 +502,7 @@ pub fn spec() -> PropertySpec {
     PropertySpec {
         id: "C08",
         level: "fault_enumeration",
-        rule: "Same fault plans at three levels. (1) write_http_response into a scripted sink that fails after exactly k accepted bytes for EVERY k in 0..=len (responses <= 700 bytes quick / 4096 thorough; head/body boundaries +-1 and drawn k for larger ones), combined with short writes and Pending; body files missing, open error, read error at offset, truncated to {0,1,half,len-1,random}. (2) HttpConn::write_response on a simulated socket with the same faults, followed by further calls. (3) the full simulated server: server-side write error at k, client RST at k, client FIN-and-stop-reading at k, body-file faults. Oracle: R = fault-free serialisation of the same response (second execution); bytes on the wire are a prefix of R; after a partial send the write side is shut down and nothing else is ever written (no second status line); after a zero-byte failure one well-formed 500 is still possible; no task panic. probe.fault_offsets counts individual (response, k) executions. non-trivial = a fault that actually interferes.",
+        rule: "Same fault plans at three levels. (1) write_http_response into a scripted sink that fails after exactly k accepted bytes for EVERY k in 0..=len (responses <= 700 bytes quick / 4096 thorough; head/body boundaries +-1 and drawn k for larger ones), combined with short writes and Pending; body files missing, open error, read error at offset, truncated to {0,1,half,len-1,random}. (2) HttpConn::write_response on a simulated socket with the same faults, followed by further calls. (3) the full simulated server: server-side write error at k, client RST at k, client FIN-and-stop-reading at k, body-file faults. Oracle: R = fault-free serialisation of the same response (second execution); bytes on the wire are a prefix of R; after a partial send the write side is shut down and nothing else is ever written (no second status line); after a zero-byte failure one well-formed 500 is still possible; no task panic. probe.fault_offsets counts individual (response, k) executions. non-trivial = a fault that actually interferes. Error kinds are drawn from 15 kinds; one fault in eight is a TRANSIENT Interrupted error (reported once, then the sink / socket works again): giving up (error + correct prefix + the shutdown rules) and a correct retry (success + exactly the correct bytes) are both accepted, resent bytes are not.",
         scenarios: vec![
             Scenario { name: "c08.writer_fault", property: "C08", func: writer_fault, runs_quick: 20_000, runs_thorough: 300_000, doc: "every sink-failure offset" },
             Scenario { name: "c08.body_fault", property: "C08", func: body_fault, runs_quick: 400_000, runs_thorough: 8_000_000, doc: "body-source faults at the serialiser" },
